@@ -1,26 +1,10 @@
-import Lean.Data.Json
-import PepperModel
-/-! Line-protocol operations of the model driver. Responses are canonical JSON. -/
+import Driver.Util
+/-! Operations on Codes, Closure, Notation. -/
 open Lean
-namespace Pepper.Driver
+namespace Pepper.Driver.Core
+open Pepper.Driver
 
-def str (j : Json) (k : String) : String := (j.getObjValAs? String k).toOption.getD ""
-def nat (j : Json) (k : String) : Nat := (j.getObjValAs? Nat k).toOption.getD 0
-def arr (j : Json) (k : String) : Array Json := match j.getObjVal? k with
-  | .ok (.arr a) => a | _ => #[]
-def natList (j : Json) : List Nat := match j with
-  | .arr a => a.toList.filterMap (fun x => x.getNat?.toOption) | _ => []
-def ofNats (l : List Nat) : Json := Json.arr (l.map (fun (n : Nat) => (Json.num n))).toArray
-def sorted (l : List Nat) : List Nat := (l.toArray.qsort (· < ·)).toList
-
-def tableOf (n : String) : CodeTable :=
-  if n == "pil" then Generated.pilTable else if n == "nupack" then Generated.nupackTable else Generated.dnaTable
-
-def adjOf (j : Json) : Closure.Adj := match j with
-  | .arr a => a.toList.filterMap (fun e => match e with
-      | .arr #[k, l] => match k.getNat? with | .ok n => some (n, natList l) | _ => none
-      | _ => none)
-  | _ => []
+def known : List String := ["intersect", "wc", "closure", "closure-naive", "notation", "dp2hu", "hu2dp", "ext2dp", "domain-expand"]
 
 def handle (j : Json) : Json :=
   match str j "op" with
@@ -45,6 +29,17 @@ def handle (j : Json) : Json :=
     Json.mkObj [("ok", Json.arr ((Closure.keys eq).map (fun x =>
       let (e, w) := Closure.naiveClass eq wc x
       Json.arr #[(x : Json), ofNats (sorted e), ofNats (sorted w)])).toArray)]
+  | "notation" =>
+    optStr (Notation.compileStruct (str j "s").toList)
+  | "dp2hu" => optStr (Notation.dotParen2HU (str j "s").toList)
+  | "hu2dp" => optStr (Notation.HU2dotParen (str j "s").toList)
+  | "ext2dp" => optStr (Notation.extended2dotParen (str j "s").toList)
+  | "domain-expand" =>
+    let doms := (arr j "doms").toList.map natList
+    optStr (Notation.domainExpand (str j "s").toList doms)
   | op => Json.mkObj [("bad", Json.str ("unknown op " ++ op))]
 
-end Pepper.Driver
+
+def handle? (op : String) (j : Json) : Option Json := if known.contains op then some (handle j) else none
+
+end Pepper.Driver.Core
